@@ -19,7 +19,7 @@ git stash push -q -- src
 (cargo test --offline --features rayon,serde --test seed_demo 2>&1 || true) | grep -E "^test result|panicked|error\[" | sort -r | head -6 | tee -a $OUT/verify.log
 git stash pop -q
 echo "== checks against the change applied to /repo" | tee -a $OUT/verify.log
-cd /repo && git apply $OUT/patch.diff && (cd /verif && ./check all --quiet --evidence-dir /tmp/seed-evidence --keys-out $OUT/keys.json 2>&1 | grep -E "VIOLATION|INFRA" | tee -a $OUT/verify.log); git -C /repo checkout -- . ; git -C /repo status --short | head -3
+cd /repo && git apply $OUT/patch.diff && (cd /verif && ./check all --quiet --evidence-dir /tmp/seed-evidence --keys-out $OUT/keys.json 2>&1 | grep -E "VIOLATION|INFRA" | tee -a $OUT/verify.log); git -C /repo checkout -- . && git -C /repo clean -fdq -- src ; git -C /repo status --short | head -3
 python3 - <<PY
 import json
 k=json.load(open("$OUT/keys.json"))
